@@ -97,6 +97,8 @@ def box(v):
         return Val.F(v.t)
     if k in ("ref", "func", "cls", "module", "closure"):
         return Val.R(v.t)
+    if k == "slice":
+        return Val.N          # slice objects are never stored; boxed only when logged
     raise TypeError(f"cannot box {v!r}")
 
 
